@@ -70,6 +70,11 @@ ReqOf(j) ==
   IF j.op = "import" THEN [op |-> "import", tree |-> TreeOfJson(j.tree), c |-> j.c]
   ELSE IF j.op = "auth" THEN [op |-> "auth", claims |-> ClaimsOf(j), c |-> j.c]
   \* fire-and-forget variants of the client library (no answer is awaited)
+  \* the client library's swap/update: cget, then cset with the version read, again if refused.  With a
+  \* transform that ignores the old value the whole call is one write at its last (accepted) cset
+  ELSE IF j.op = "swap"
+    THEN [op |-> "cset", key |-> j.key, val |-> j.val, c |-> j.c,
+          ver |-> IF HasVal(S.store, j.key) /\ S.store[j.key].k = "cas" THEN S.store[j.key].n ELSE 0]
   ELSE IF j.op = "unsub_async" THEN [op |-> "unsub", tid |-> j.tid, c |-> j.c]
   ELSE IF j.op = "unsubls_async"
     \* client lib.rs:2200-2204 sends `unsubscribe` for it  [D_UNSUBLS_ASYNC]
